@@ -1543,6 +1543,10 @@ func checkShiftCounts(c *core.Ctx, p *load.Prog) {
 	}
 	n := 0
 	decls := funcsOfFiles(p, pkg, "parse.go", "parse_expr.go", "eval_expr.go", "tokenize.go", "token_tree.go")
+	// variables assumed non-negative while a callee is looked at for a call
+	// whose arguments are
+	assumed := map[types.Object]bool{}
+	var guardedAt func(fd *ast.FuncDecl, count ast.Expr, at token.Pos) bool
 	var nonNeg func(fd *ast.FuncDecl, e ast.Expr, depth int) bool
 	nonNeg = func(fd *ast.FuncDecl, e ast.Expr, depth int) bool {
 		e = ast.Unparen(e)
@@ -1555,10 +1559,20 @@ func checkShiftCounts(c *core.Ctx, p *load.Prog) {
 		if depth > 3 {
 			return false
 		}
+		if id, ok := e.(*ast.Ident); ok && assumed[info.ObjectOf(id)] {
+			return true
+		}
 		switch x := e.(type) {
 		case *ast.BinaryExpr:
 			if x.Op == token.ADD || x.Op == token.MUL {
 				return nonNeg(fd, x.X, depth+1) && nonNeg(fd, x.Y, depth+1)
+			}
+			// the sign bit of x & y is set only if it is set in both
+			if x.Op == token.AND {
+				return nonNeg(fd, x.X, depth+1) || nonNeg(fd, x.Y, depth+1)
+			}
+			if x.Op == token.SHR || x.Op == token.QUO {
+				return nonNeg(fd, x.X, depth+1) && (x.Op == token.SHR || nonNeg(fd, x.Y, depth+1))
 			}
 		case *ast.CallExpr:
 			if wire.Canon(x.Fun) == "len" || wire.Canon(x.Fun) == "cap" {
@@ -1566,6 +1580,42 @@ func checkShiftCounts(c *core.Ctx, p *load.Prog) {
 			}
 			if tv, ok := info.Types[x.Fun]; ok && tv.IsType() && len(x.Args) == 1 {
 				return nonNeg(fd, x.Args[0], depth+1)
+			}
+			// a function of the package every return of which is non-negative
+			// when the parameters that are handed non-negative values are
+			if cal := load.Callee(info, x); cal != nil && cal.Pkg() == pkg.Types {
+				if cd := p.Decl(cal); cd != nil && cd.Body != nil && cd != fd {
+					sig, _ := cal.Type().(*types.Signature)
+					var bound []types.Object
+					if sig != nil {
+						for i, a := range x.Args {
+							if i < sig.Params().Len() && (nonNeg(fd, a, depth+1) || guardedAt != nil && guardedAt(fd, a, x.Pos())) {
+								po := types.Object(sig.Params().At(i))
+								if !assumed[po] {
+									assumed[po] = true
+									bound = append(bound, po)
+								}
+							}
+						}
+					}
+					all, any := true, false
+					ast.Inspect(cd.Body, func(m ast.Node) bool {
+						if _, isLit := m.(*ast.FuncLit); isLit {
+							return false
+						}
+						if r, ok := m.(*ast.ReturnStmt); ok && len(r.Results) >= 1 {
+							any = true
+							if !nonNeg(cd, r.Results[0], depth+1) {
+								all = false
+							}
+						}
+						return true
+					})
+					for _, po := range bound {
+						delete(assumed, po)
+					}
+					return any && all
+				}
 			}
 		case *ast.Ident:
 			// a loop counter that starts at a constant >= 0 and is only incremented
@@ -1634,6 +1684,7 @@ func checkShiftCounts(c *core.Ctx, p *load.Prog) {
 		})
 		return found
 	}
+	guardedAt = guarded
 	// a count that is a parameter is safe when every call in the package hands
 	// it a value that is non-negative or guarded at the call
 	var safeParam func(fd *ast.FuncDecl, count ast.Expr, depth int) bool
